@@ -135,6 +135,11 @@ def step (_ : Unit) (f : List String) : Unit × String :=
       match Gen.Keys.decodePacketKey (encodePacketKey (pkey rest)) with
       | some b => "ok " ++ toHexD b
       | none => "err"
+  | "evrt" :: rest =>
+      -- the event carries the standard base64 text of the key (`encodePacketKey`), which decodes back
+      match Gen.Keys.decodePacketKey (encodePacketKey (pkey rest)) with
+      | some b => "ok " ++ toHexD (encodePacketKey (pkey rest)) ++ " " ++ toHexD b
+      | none => "err " ++ toHexD (encodePacketKey (pkey rest))
   | "rmax" :: r :: m :: rest =>
       let rg := Gen.Keys.pendingByMaxHeightRange (hex! r) (nat! m)
       toString (inRange rg.1 rg.2 (pkey rest))
